@@ -139,7 +139,7 @@ fn dj(d: &[(Universal2DBox, Option<f32>)]) -> serde_json::Value {
 
 pub fn run(tier: Tier) -> Report {
     let rep = Report::new("C14", tier);
-    rep.set_rule("every list of n <= 4 (quick) / 5 (thorough) boxes drawn with repetition from an 11-box menu (cluster of shifted boxes, nested, exact duplicate, rotated, disjoint, two corner overlaps, two invalid) x score patterns (all None; every distinct permutation of a prefix of {.9,.5,.5,.1,.7}) x nms threshold {.05,.2,.3,.5,.7} x score threshold {None, below, inside, above the scores, above every box height}; plus every list of 2-3 boxes from 6 small boxes at map coordinates (1e7; 448250 / 5411900), one f32 grid step apart; plus every list of 2-3 boxes from 7 elongated boxes that all carry the same non-zero angle (3 angles; offsets along and across the long side); plus every list of 2-3 boxes from a 5-box rotated cluster in which at least one box had its polygon generated (gen_vertices) before it was moved / turned in place; plus chain / ladder / grid families of k boxes for every k <= 40; plus valid frames judged right after a call that failed on the same thread (a box with its public confidence field outside [0,1] overlapping the top box, every placement in lists of 3..6); plus an exact family: every list of 2 (thorough: 3) boxes from 60 axis-aligned boxes with dyadic corners and sizes x thresholds {1/8,1/4,1/2,3/4}, decided with zero margin (coverage exactly at the threshold must not suppress). Non-trivial = at least two valid boxes.");
+    rep.set_rule("every list of n <= 4 (quick) / 5 (thorough) boxes drawn with repetition from an 11-box menu (cluster of shifted boxes, nested, exact duplicate, rotated, disjoint, two corner overlaps, two invalid) x score patterns (all None; every distinct permutation of a prefix of {.9,.5,.5,.1,.7}) x nms threshold {.05,.2,.3,.5,.7} x score threshold {None, below, inside, above the scores, above every box height}; plus every list of 2-3 boxes from 6 small boxes at map coordinates (1e7; 448250 / 5411900), one f32 grid step apart; plus every list of 2-3 boxes of the menu in a small unit (3e-4 and 1e-3: areas down to 1e-6); plus every list of 2-3 boxes from 7 elongated boxes that all carry the same non-zero angle (3 angles; offsets along and across the long side); plus every list of 2-3 boxes from a 5-box rotated cluster in which at least one box had its polygon generated (gen_vertices) before it was moved / turned in place; plus chain / ladder / grid families of k boxes for every k <= 40; plus valid frames judged right after a call that failed on the same thread (a box with its public confidence field outside [0,1] overlapping the top box, every placement in lists of 3..6); plus an exact family: every list of 2 (thorough: 3) boxes from 60 axis-aligned boxes with dyadic corners and sizes x thresholds {1/8,1/4,1/2,3/4}, decided with zero margin (coverage exactly at the threshold must not suppress). Non-trivial = at least two valid boxes.");
     rep.assume("own coverage computation (engine/src/geom.rs); keep/drop decisions asserted outside a 1e-4 margin around the threshold");
     let m = menu();
     let nmax = tier.pick(4usize, 5usize);
@@ -338,6 +338,37 @@ pub fn run(tier: Tier) -> Report {
             }
         }
         rep.extra("map_coordinate_lists", json!(lists));
+    }
+    // the menu in a small unit (coordinates normalised to the frame: an object a few pixels across has an area of
+    // 1e-5 and less): coverage is a ratio of areas and has no absolute scale
+    {
+        let mut lists = 0u64;
+        for unit in [3.0e-4f32, 1.0e-3] {
+            let sm: Vec<Universal2DBox> = m.iter().filter(|b| valid(b)).map(|b| Universal2DBox::new_with_confidence(b.xc * unit, b.yc * unit, b.angle, b.aspect, b.height * unit, b.confidence)).collect();
+            for n in 2..=3usize {
+                let total = sm.len().pow(n as u32);
+                par_for(total, 32, |code| {
+                    let mut k = code;
+                    let mut boxes = vec![];
+                    for _ in 0..n {
+                        boxes.push(sm[k % sm.len()].clone());
+                        k /= sm.len();
+                    }
+                    for scored in [true, false] {
+                        let dets: Vec<(Universal2DBox, Option<f32>)> = boxes.iter().enumerate().map(|(i, b)| (b.clone(), if scored { Some(0.9 - 0.2 * i as f32) } else { None })).collect();
+                        for &nt in &[0.2f32, 0.5, 0.7] {
+                            evals.fetch_add(1, Ordering::Relaxed);
+                            nontrivial.fetch_add(1, Ordering::Relaxed);
+                            if let Err((key, what)) = judge(&dets, nt, None) {
+                                rep.violation(Violation { key: format!("{key}/small-unit"), what, replay: json!({"family":"small unit","unit":unit,"detections":dj(&dets),"nms_threshold":nt}) });
+                            }
+                        }
+                    }
+                });
+                lists += total as u64;
+            }
+        }
+        rep.extra("small_unit_lists", json!(lists));
     }
     // equally oriented boxes: elongated boxes that all carry the SAME non-zero angle (an oriented detector's
     // output for parallel objects); centres offset along and across the long side
